@@ -37,7 +37,8 @@ ASSUMPTIONS = ['a registration is ONE step (the property injects registrations a
                '(no lookup or registration in flight); Components.__init__ drops every registration (zope, validated by correspondence)']
 TRUSTED = ['translator harness/c15/translate.py (Python ast -> instruction lists, cache key, init program, gen_call_view; fail-closed; '
            '_find_views, _call_view, Registry.__init__ fully translated; the request-type stores of Router.handle_request, the key of '
-           'invoke_exception_view and add_route.register_route_request_iface as fail-closed facts; '
+           'invoke_exception_view, add_route.register_route_request_iface and add_exception_view as fail-closed facts; '
+           'Registry._clear_view_lookup_cache read whole (parameter clear_mode_registry); '
            'the rest shape-pinned)',
            'instruction semantics coq/Model/C15.v (validated by correspondence incl. the number of adapter queries per lookup)',
            'zope.interface resolution orders (__sro__) and the adapter registry (oracle input / abstract map)',
@@ -202,6 +203,16 @@ def facts(src):
     except Exception as e:
         route_once = False
         problems.append('config/routes.py: the request interface of a route is not created exactly once: %s' % e)
+    # add_exception_view only forwards to add_view with exception_only=True (what the bookkeeping of histories relies on)
+    excview_fwd = True
+    try:
+        fn = F.Module(src, 'pyramid/config/views.py').find('ViewsConfiguratorMixin.add_exception_view')
+        if fn is None:
+            raise T.Unknown('add_exception_view not found')
+        T.exception_view_forwards(fn)
+    except Exception as e:
+        excview_fwd = False
+        problems.append('config/views.py:add_exception_view is not a plain forward to add_view(exception_only=True): %s' % e)
     # _call_view: the control flow around the candidate calls, regenerated
     gen_cv = T.CV_FALLBACK
     try:
@@ -278,17 +289,19 @@ def facts(src):
            'Definition excview_uses_combined : bool := %s.\n'
            '(* add_route: the request interface of a route name is created when there is none, an existing one is left alone *)\n'
            'Definition route_iface_created_once : bool := %s.\n'
+           '(* add_exception_view forwards to add_view with exception_only=True, the given view and context, nothing else *)\n'
+           'Definition add_exception_view_forwards : bool := %s.\n'
            '(* translated from pyramid.view._call_view: which candidate of the list returned by _find_views answers *)\n'
            '%s'
            % ('; '.join(str(T.VIEW_TYPE_IDS[n]) for n in vt), T.coq_prog(lookup), ', '.join(key_names),
               'KeyFull' if 'view_classifier' in key_names else 'KeyTriad', F.coq_bool('view_types' in key_names),
               mode, fmode, T.coq_prog(register), T.coq_prog(register).replace('clear_mode_registry', 'clear_mode_fallback'),
               F.coq_bool(reads_only), F.coq_bool(mv_stateless),
-              T.coq_prog(init_prog), F.coq_bool(resets), F.coq_bool(sets_route), F.coq_bool(orders_fixed), F.coq_bool(exc_combined), F.coq_bool(route_once), gen_cv))
+              T.coq_prog(init_prog), F.coq_bool(resets), F.coq_bool(sets_route), F.coq_bool(orders_fixed), F.coq_bool(exc_combined), F.coq_bool(route_once), F.coq_bool(excview_fwd), gen_cv))
     summary.update({'lookup_prog': T.coq_prog(lookup), 'register_prog': T.coq_prog(register).replace('clear_mode_registry', mode),
                     'clear_mode': mode, 'clear_mode_fallback': fmode, 'init_prog': T.coq_prog(init_prog).replace('clear_mode_registry', mode),
                     'router_resets_iface': resets, 'router_sets_route_iface': sets_route,
-                    'gen_call_view_is_reference_text': gen_cv == T.CV_FALLBACK, 'spec_orders_immutable': orders_fixed, 'excview_uses_combined': exc_combined, 'route_iface_created_once': route_once, 'view_types': vt, 'params': T.flat_params(lookup), 'call_view_reads_only': reads_only, 'multiview_stateless': mv_stateless, 'cache_key': key_names,
+                    'gen_call_view_is_reference_text': gen_cv == T.CV_FALLBACK, 'spec_orders_immutable': orders_fixed, 'excview_uses_combined': exc_combined, 'route_iface_created_once': route_once, 'add_exception_view_forwards': excview_fwd, 'view_types': vt, 'params': T.flat_params(lookup), 'call_view_reads_only': reads_only, 'multiview_stateless': mv_stateless, 'cache_key': key_names,
                     'cache_key_mode': 'KeyFull' if 'view_classifier' in key_names else 'KeyTriad',
                     'theorems_applying': ('C15_lookup_fresh (full key)' if 'view_classifier' in key_names else
                                           'C15_lookup_fresh_ordinary_only_partial + C15_lookup_fresh_KeyTriad_refuted')})
